@@ -515,6 +515,7 @@ Section ReachLemmas.
   Lemma linked_app (g : block) (l1 l2 : list block) :
     linked H g (l1 ++ l2) <-> linked H g l1 /\ linked H (lastb g l1) l2.
   Proof.
+    clear value_fn addr_of sig_ok gen_id validator.
     revert g. induction l1 as [|b r IH]; intros g; simpl; [tauto|]. rewrite IH. tauto.
   Qed.
 
@@ -523,6 +524,25 @@ Section ReachLemmas.
   Proof.
     induction l as [|b r IH]; intros i p Hv; [exact I|].
     destruct Hv as (Hl & _ & Hr). split; [exact Hl | apply (IH _ _ Hr)].
+  Qed.
+
+  (* the links [verify] has checked *)
+  Lemma verify_linked (host : cstate) (lh neigh old : list block) (now : Z) (v : list block) :
+    verify host lh neigh old now = Ok v ->
+    match last_block old, neigh with
+    | Some p, _ => linked H p neigh
+    | None, g :: r => b_prev g = zero_hash /\ linked H g r
+    | None, [] => False
+    end.
+  Proof.
+    intros Hv. destruct (verify_inv _ _ _ _ _ _ Hv) as (_ & Hne & _ & sh0 & sh & Hloop).
+    destruct (last_block old) as [p|].
+    - apply verify_loop_vrules in Hloop. apply (vrules_linked _ _ _ _ _ Hloop).
+    - destruct neigh as [|g r]; [contradiction|]. cbn [verify_loop] in Hloop.
+      destruct (verify_step value_fn addr_of sig_ok H S lh now 0 sh0 None g) as [sh1|e] eqn:Es;
+        [|discriminate].
+      split; [apply (verify_step_none _ _ _ _ _ _ Es)|].
+      apply verify_loop_vrules in Hloop. apply (vrules_linked _ _ _ _ _ Hloop).
   Qed.
 
   Lemma update_linked (st : cstate) (now : Z) (nbs : list neighbor) (pref : string)
@@ -570,6 +590,7 @@ Section ReachLemmas.
   Lemma chain_rules_app (g : block) (l1 l2 : list block) :
     chain_rules H S g (l1 ++ l2) <-> chain_rules H S g l1 /\ chain_rules H S (lastb g l1) l2.
   Proof.
+    clear value_fn addr_of sig_ok gen_id validator.
     revert g. induction l1 as [|b r IH]; intros g; simpl; [tauto|]. rewrite IH. tauto.
   Qed.
 
@@ -1123,4 +1144,26 @@ Module ReachExample.
       + intros E. vm_compute in E. discriminate E.
     - intros Hc. vm_compute in Hc. destruct Hc as (_ & Ht & _). discriminate Ht.
   Qed.
+
+  (* a neighbor on another branch (three blocks by validator "W"): the two-block node adopts its
+     chain in a full re-sync *)
+  Definition w3 : node :=
+    step vf ao so Hinj gid Sx "W"%string
+         (step vf ao so Hinj gid Sx "W"%string
+               (step vf ao so Hinj gid Sx "W"%string node_empty (OpValidate 10 []))
+               (OpValidate 20 []))
+         (OpValidate 30 []).
+  Definition nbW : neighbor := mkNb "w:1"%string (RFail EFetch) (RBlocks (chain (n_c w3))).
+  Definition n3 : node :=
+    step vf ao so Hinj gid Sx "V"%string (n2 Hinj) (OpUpdate 40 [nbW] EmptyString).
+
+  Lemma n3_reach_pos : reach_pos vf ao so Hinj gid Sx "V"%string n3.
+  Proof.
+    apply reach_pos_step; [exact n2_reach_pos| |].
+    - intros nb [E|[]] Et. subst nb. vm_compute in Et. discriminate Et.
+    - intros nb g r [E|[]] Ef. subst nb. vm_compute in Ef. inversion Ef; subst g. reflexivity.
+  Qed.
+
+  Lemma n3_adopted : chain (n_c n3) = chain (n_c w3) /\ length (chain (n_c n3)) = 3.
+  Proof. vm_compute. split; reflexivity. Qed.
 End ReachExample.
